@@ -160,9 +160,10 @@ func newOwnWorld(t *testing.T, tw *tracelog.Writer, seed int64) *ownWorld {
 		w.users = append(w.users, n)
 		w.set(n, apphelp.Acct(int(seed%1000)*10+i))
 	}
-	// lockup: u5 is on the force-unlock list
+	// lockup: u4 and u5 are on the force-unlock list (two listed owners: a listed sender must still
+	// not be able to force-unlock the lock of ANOTHER listed owner)
 	lp := w.App.LockupKeeper.GetParams(w.Ctx)
-	lp.ForceUnlockAllowedAddresses = []string{w.bech("u5")}
+	lp.ForceUnlockAllowedAddresses = []string{w.bech("u5"), w.bech("u4")}
 	w.App.LockupKeeper.SetParams(w.Ctx, lp)
 	// staking / superfluid environment (as x/superfluid's own tests set it up)
 	sp, err := w.App.StakingKeeper.GetParams(w.Ctx)
@@ -667,7 +668,7 @@ func (w *ownWorld) lockKindFor(s *snap, obj string) string {
 		return "sf.unbond"
 	case len(l.Coins) == 1 && l.Coins[0].Denom == w.gammDenom && !bonded && !unbonding && !l.IsUnlocking() && r < 4:
 		return "sf.delegate"
-	case s.own[obj] == "u5" && r < 3:
+	case (s.own[obj] == "u5" || s.own[obj] == "u4") && r < 3:
 		return "lock.force"
 	}
 	return w.pick([]string{"lock.begin", "lock.extend", "lock.setrr", "lock.setrr", "lock.begin", "lock.extend", "lock.force", "sf.delegate", "sf.unbond"})
@@ -949,7 +950,7 @@ func TestRecordOwn(t *testing.T) {
 		w.dg = w.fullDigest(w.Ctx)
 		s0 := w.snapshot(w.Ctx)
 		tw.Emit(map[string]any{"e": "cfg", "seed": seed*1000 + int64(h), "own": s0.own, "dg": w.dg, "users": w.users, "special": w.special,
-			"forceUnlockAllowed": []string{"u5"}, "unbondingSeconds": int64(w.unbonding / time.Second)})
+			"forceUnlockAllowed": []string{"u4", "u5"}, "unbondingSeconds": int64(w.unbonding / time.Second)})
 		for i := 1; i <= nops; i++ {
 			w.step()
 			if i%every == 0 || i == nops {
